@@ -122,7 +122,7 @@ pub fn build(t: &TreeSpec) -> Memfs {
 }
 
 pub fn arg_paths() -> Vec<&'static str> {
-    vec!["/", "/a", "/b", "/a/a", "/a/b", "/b/a", "/b/b", "/c", "/a/c", "/c/d", "/a/a/x", "/b/b/y"]
+    vec!["/", "/a", "/b", "/a/a", "/a/b", "/b/a", "/b/b", "/c", "/a/c", "/c/d", "/a/a/x", "/b/b/y", "/ab"]
 }
 
 fn under(base: &str, rel: &str) -> String {
@@ -196,7 +196,11 @@ pub fn check_copy(case: &CopyCase) -> CaseResult {
             match (pre.nodes.get(&k), post.nodes.get(&nk)) {
                 (Some(a), Some(b)) => {
                     let same = match (a, b) {
-                        (Node::Link { target: t1, mode: m1, uid: u1, gid: g1, .. }, Node::Link { target: t2, mode: m2, uid: u2, gid: g2, .. }) => t1 == t2 && m1 == m2 && u1 == u2 && g1 == g2,
+                        (Node::Link { target: t1, rel: r1, mode: m1, uid: u1, gid: g1, .. }, Node::Link { target: t2, rel: r2, mode: m2, uid: u2, gid: g2, .. }) => {
+                            // same link text; a relative link resolves from its new location
+                            let want = if r1.is_empty() || r1.starts_with('/') { t1.clone() } else { abs_plain("/", &format!("{}/{}", parent(&nk), r1)).unwrap_or(t1.clone()) };
+                            r1 == r2 && want == *t2 && m1 == m2 && u1 == u2 && g1 == g2
+                        },
                         (x, y) => x == y,
                     };
                     if !same {
@@ -341,7 +345,7 @@ pub fn check_copy(case: &CopyCase) -> CaseResult {
 }
 
 pub fn run(c: &Ctx) {
-    c.set_rule("exhaustive: every tree over the namespace {/a,/b} x {a,b} where each top-level slot is missing / file / link (to /a,/b,/a/a,/nope,/b/b) / directory with two children each missing / file / dir / link (3025 trees; every fourth gets non-default modes, owners or both), materialised on a fresh Memfs; x every ordered (src,dst) pair of 12 paths (the namespace, root, missing names, a missing parent, deeper-than-namespace) x {copy, copy+chmod_all, +chmod_dirs, +chmod_files, +follow, move_p}. quick: a seeded 1/3 of the trees, thorough: all (2.6 M cases). Oracle: postcondition predicates on the dump before/after (DESIGN section 4 C09): source untouched, every source entry has a copy at the same relative path with same kind/bytes/link target, new entries carry the source mode unless the chmod option selects their kind, existing entries kept, nothing outside the destination changes (except created ancestors); move: source gone, destination == former subtree (modes, owners, bytes, targets), rest unchanged, failed move changes nothing; C03 invariants; call returns. Non-trivial = src exists and (dst exists or src/dst nested or an option is set); distinct by (tree, src, dst, variant).");
+    c.set_rule("exhaustive: every tree over the namespace {/a,/b} x {a,b} where each top-level slot is missing / file / link (to /a,/b,/a/a,/nope,/b/b) / directory with two children each missing / file / dir / link (3025 trees; every fourth gets non-default modes, owners or both), materialised on a fresh Memfs; x every ordered (src,dst) pair of 12 paths (the namespace, root, missing names, a missing parent, deeper-than-namespace) x {copy, copy+chmod_all, +chmod_dirs, +chmod_files, +follow, move_p}. quick: a seeded 1/3 of the trees, thorough: all (2.6 M cases). Oracle: postcondition predicates on the dump before/after (DESIGN section 4 C09): source untouched, every source entry has a copy at the same relative path with same kind/bytes/link target, new entries carry the source mode unless the chmod option selects their kind, existing entries kept, nothing outside the destination changes (except created ancestors); move: source gone, destination == former subtree (modes, owners, bytes, link text; relative links resolve from the new location), rest unchanged, failed move changes nothing; C03 invariants; call returns. Non-trivial = src exists and (dst exists or src/dst nested or an option is set); distinct by (tree, src, dst, variant).");
     c.assume("copy with follow on a source containing links: only frame conditions are asserted (placement undocumented)");
     let trees = all_trees();
     let paths = arg_paths();
